@@ -514,7 +514,7 @@ const analyzeHTMLTemplate = `<!DOCTYPE html>
                         <div class="score-bar-container">
                             <div class="score-bar-fill score-{{scoreQuality .Summary.DependencyScore}}" style="width: {{.Summary.DependencyScore}}%"></div>
                         </div>
-                        <div class="score-detail">{{if eq .Summary.DepsModulesInCycles 0}}No cycles{{else}}{{.Summary.DepsModulesInCycles}} cycles{{end}}, Depth: {{.Summary.DepsMaxDepth}}</div>
+                        <div class="score-detail">{{if eq .Summary.DepsModulesInCycles 0}}No cycles{{else}}{{.Summary.DepsModulesInCycles}} modules in cycles{{end}}, Depth: {{.Summary.DepsMaxDepth}}</div>
                     </div>
                     {{end}}
 
